@@ -21,27 +21,68 @@ sys.exit(replay.replay_form(json.loads(r\'\'\'{payload}\'\'\')))
 def _call(fn_mod, fn_name, name, spec):
     import importlib
 
+    import time
+
+    from . import poly
+
+    poly.DEADLINE[0] = time.time() + (spec.get("case_budget_s") or (240 if spec.get("tier", "quick") == "quick" else 900))
     mod = importlib.import_module(fn_mod)
     return getattr(mod, fn_name)(name, spec)
 
 
+def _child(conn, fn_mod, fn_name, name, spec):
+    try:
+        r = _call(fn_mod, fn_name, name, spec)
+    except (KeyboardInterrupt, SystemExit):
+        raise
+    except BaseException as e:  # noqa: BLE001 (UFL raises BaseException subclasses)
+        r = {"name": name, "harness": [f"{name}: worker failed: {type(e).__name__}: {e}"]}
+    try:
+        conn.send(r)
+    except Exception as e:
+        conn.send({"name": name, "harness": [f"{name}: result not transferable: {e}"]})
+    conn.close()
+
+
 def run_cases(chk: Check, fn_mod: str, fn_name: str, names, spec_for, jobs: int = 14):
-    """spec_for: callable name -> spec dict, or a dict used for all."""
+    """One OS process per case (fork), at most `jobs` at a time, each under a hard wall-clock
+    limit: a case that hangs inside native code (UFL recursion, a solver) is killed and
+    reported as outside the budget instead of blocking the check."""
+    import multiprocessing as mp
+    import time
+
+    ctx = mp.get_context("fork")
     results = {}
-    jobs = max(1, min(jobs, len(names) or 1))
-    with ProcessPoolExecutor(max_workers=jobs) as ex:
-        futs = {}
-        for n in names:
+    pending = list(names)
+    live = {}
+    jobs = max(1, jobs)
+    while pending or live:
+        while pending and len(live) < jobs:
+            n = pending.pop(0)
             spec = spec_for(n) if callable(spec_for) else spec_for
-            futs[ex.submit(_call, fn_mod, fn_name, n, spec)] = n
-        for f in as_completed(futs):
-            n = futs[f]
-            try:
-                results[n] = f.result()
-            except (KeyboardInterrupt, SystemExit):
-                raise
-            except BaseException as e:  # worker crashed
-                results[n] = {"name": n, "harness": [f"{n}: worker failed: {type(e).__name__}: {e}"]}
+            hard = (spec.get("case_budget_s") or (240 if spec.get("tier", "quick") == "quick" else 900)) + 90
+            pc, cc = ctx.Pipe(duplex=False)
+            pr = ctx.Process(target=_child, args=(cc, fn_mod, fn_name, n, spec), daemon=True)
+            pr.start()
+            cc.close()
+            live[n] = (pr, pc, time.time() + hard)
+        for n, (pr, pc, deadline) in list(live.items()):
+            if pc.poll(0):
+                try:
+                    results[n] = pc.recv()
+                except EOFError:
+                    results[n] = {"name": n, "harness": [f"{n}: worker died without a result (exit code {pr.exitcode})"]}
+                pr.join(5)
+                del live[n]
+            elif not pr.is_alive():
+                results[n] = {"name": n, "outside": [f"{n}: worker process died (exit code {pr.exitcode}; e.g. stack overflow inside UFL) - not analysed"]}
+                del live[n]
+            elif time.time() > deadline:
+                pr.kill()
+                pr.join(5)
+                results[n] = {"name": n, "outside": [f"{n}: killed after the hard wall-clock limit (hang in native code) - not analysed"]}
+                del live[n]
+        time.sleep(0.02)
     for n in names:
         merge(chk, results[n])
     return results
